@@ -110,24 +110,33 @@ def gen_bounds(rng, cols):
 
 def gen_model(rng, naming=None):
     """returns the model tree [name, sense, objrow, objconst, rows, cols, bounds]"""
-    naming = naming or rng.choice(["foreign", "foreign", "foreign", "ommx", "ommx-cols", "ommx-rows", "ommx-bad"])
+    naming = naming or rng.choice(["foreign", "foreign", "foreign", "ommx", "ommx-cols", "ommx-rows", "ommx-bad", "ommx-noncanon"])
     clash = False
     ncols = rng.randint(1, 6)
     nrows = rng.randint(0, 5)
-    if naming in ("ommx", "ommx-cols", "ommx-bad"):
+    if naming in ("ommx", "ommx-cols", "ommx-bad", "ommx-noncanon"):
         ids = rng.sample(range(0, 40), ncols)
         if rng.random() < 0.2:
             ids[0] = rng.choice([2 ** 40 + 3, 2 ** 62])
         cnames = ["OMMX_VAR_%d" % i for i in ids]
         if naming == "ommx-bad":
             cnames[rng.randrange(ncols)] = rng.choice(["OMMX_VAR_A", "OMMX_VAR_", "OMMX_VAR_1x"])
+        if naming == "ommx-noncanon":
+            # a name that is NOT the canonical rendering of a number (leading zero, plus sign) although it parses as one:
+            # it may even denote the number of ANOTHER column; it is an ordinary name (fix: parse_id_tag accepts only the
+            # canonical decimal rendering), so ids are assigned by position and stay distinct
+            k = rng.randrange(ncols)
+            other = ids[rng.randrange(ncols)]
+            cnames[k] = rng.choice(["OMMX_VAR_0%d", "OMMX_VAR_+%d", "OMMX_VAR_00%d"]) % (other if other < 2 ** 40 else 7)
     else:
         cnames = rng.sample(COL_NAMES, ncols)
-    if naming in ("ommx", "ommx-rows", "ommx-bad"):
+    if naming in ("ommx", "ommx-rows", "ommx-bad", "ommx-noncanon"):
         rids = rng.sample(range(0, 40), nrows)
         rnames = ["OMMX_CONSTR_%d" % i for i in rids]
         if naming == "ommx-bad" and nrows and rng.random() < 0.5:
             rnames[rng.randrange(nrows)] = "OMMX_CONSTR_x"
+        if naming == "ommx-noncanon" and nrows and rng.random() < 0.7:
+            rnames[rng.randrange(nrows)] = rng.choice(["OMMX_CONSTR_0%d", "OMMX_CONSTR_+%d"]) % rids[rng.randrange(nrows)]
         objrow = "OBJ"
     else:
         rnames = rng.sample(ROW_NAMES, nrows)
